@@ -29,7 +29,7 @@ Alphabet ==
        { Op("New", 0, i, "", V(0), "", NoDef, FALSE) : i \in {"soft", "wrap"} }
   \cup { NewOf(i, "rta", TAttrsOnly) : i \in {"soft", "wrap"} } \cup { NewOf(i, "rtr", TRelsOnly) : i \in {"soft", "wrap"} }
   \cup { Op("Set", h, "", p[1], p[2], "", NoDef, FALSE) : h \in H,
-            p \in { <<"s", V(1)>>, <<"s", V(2)>>, <<"n", V(1)>>, <<"n", NilV>>, <<"b", V(1)>>, <<"b", V(2)>>,
+            p \in { <<"s", V(1)>>, <<"s", V(2)>>, <<"n", V(1)>>, <<"n", V(2)>>, <<"n", NilV>>, <<"b", V(1)>>, <<"b", V(2)>>,
                     <<"q", V(1)>>, <<"q", NilV>>, <<"o", Ids(<<"a">>)>>, <<"o", Ids(<<>>)>>,
                     <<"m", Ids(<<"b", "a">>)>>, <<"m", Ids(<<"c", "b", "a">>)>>, <<"m", Ids(<<>>)>>,
                     <<"m", Ids(<<"a", "b", "a">>)>> } }
@@ -94,7 +94,7 @@ AltVal(e, f) == LET d == e.fields[f] v == e.vals[f] IN
     ELSE IF d.to1 THEN (IF v.ids = <<"b">> THEN Ids(<<"a">>) ELSE Ids(<<"b">>))
     ELSE (IF v.ids = <<"a">> THEN Ids(<<"b">>) ELSE Ids(<<"a">>))
 Variants(e) ==
-       {e, [e EXCEPT !.tname = "rt2"], [e EXCEPT !.id = "i2"]}
+       {e, [e EXCEPT !.tname = "rt2"], [e EXCEPT !.id = "i2"], [e EXCEPT !.id = ""]}
   \cup { Rename(e, f, f \o "2") : f \in DOMAIN e.fields }
   \cup { [e EXCEPT !.vals[f] = AltVal(e, f)] : f \in DOMAIN e.fields }
   \cup { [e EXCEPT !.vals[f] = NilV] : f \in {"n", "q"} }
